@@ -619,6 +619,7 @@ def run_objective(ctx):
         models.append(M.gen_model_spec(r))
     for name in (M.LIB_QUICK[:3] if ctx.quick else M.LIB_THOROUGH):
         models.append({"kind": "lib", "name": name})
+    models.append({"kind": "lib", "name": "combined"})   # several population types: most quantities exist only in some populations
     n_per = ctx.n(40, 80)
     reqs, meta = [], []
     for ms_ in models:
@@ -1071,7 +1072,7 @@ def gen_calibrate_spec(ctx, mspec, force=None):
 def gen_reconcile_spec(ctx, mspec):
     r = ctx.rng
     return {"kind": "reconcile", "model": mspec, "year": 2018.0, "unit_cost_bounds": r.choice([0.1, 0.2, 0.5]), "baseline_bounds": r.choice([0.0, 0.2]),
-            "outcome_bounds": r.choice([0.0, 0.3]), "capacity_bounds": 0.0, "eval_range": None if r.random() < 0.6 else [2018.0, 2020.0],
+            "outcome_bounds": r.choice([0.0, 0.3]), "capacity_bounds": [0.0, 0.02, 0.3][(r.randint(0, 10**6)) % 3], "eval_range": None if r.random() < 0.6 else [2018.0, 2020.0],
             "maxiters": r.choice([2, 5, 10, 20]), "seed": r.randint(0, 10**6)}
 
 
@@ -1242,6 +1243,32 @@ def check_reference(ctx, spec, ref):
         lo, hi = rec["xmin"], rec["xmax"]
         if np.all(rec["x0"] >= lo) and np.all(rec["x0"] <= hi) and not (np.all(rec["x"] >= lo - 1e-12) and np.all(rec["x"] <= hi + 1e-12)):
             ctx.violation({"api": api, "case": "value-outside-bounds"}, f"reconcile: x={rec['x'].tolist()} outside [{lo.tolist()}, {hi.tolist()}]", replay)
+        # the bounds as the CALLER gave them (each a fraction of the original value), stated independently of the box the library handed to the optimiser
+        bad = []
+        yr = spec["year"]
+        def frac_ok(new, old, b):
+            lo_, hi_ = sorted([old * (1 - b), old * (1 + b)])
+            return lo_ - 1e-9 * max(1.0, abs(old)) <= new <= hi_ + 1e-9 * max(1.0, abs(old))
+        for nm, prog0 in progset.programs.items():
+            prog1 = new_progset.programs[nm]
+            for attr, b in (("unit_cost", spec["unit_cost_bounds"]), ("capacity_constraint", spec["capacity_bounds"])):
+                ts0, ts1 = getattr(prog0, attr), getattr(prog1, attr)
+                if not ts0.has_data or not ts1.has_data:
+                    continue
+                old = float(ts0.interpolate(np.array([yr]), method="previous")[0]); new = float(ts1.interpolate(np.array([yr]), method="previous")[0])
+                if attr == "capacity_constraint":
+                    ctx.count("reconcile.capacity_constraint_present")
+                if not frac_ok(new, old, b or 0.0):
+                    bad.append(f"{attr} of {nm}: {old!r} -> {new!r} (bound +-{b})")
+        for kk, c0 in progset.covouts.items():
+            c1 = new_progset.covouts[kk]
+            if not frac_ok(float(c1.baseline), float(c0.baseline), spec["baseline_bounds"] or 0.0):
+                bad.append(f"baseline of {kk}: {float(c0.baseline)!r} -> {float(c1.baseline)!r} (bound +-{spec['baseline_bounds']})")
+            for pn, o0 in c0.progs.items():
+                if not frac_ok(float(c1.progs[pn]), float(o0), spec["outcome_bounds"] or 0.0):
+                    bad.append(f"outcome of {pn} on {kk}: {float(o0)!r} -> {float(c1.progs[pn])!r} (bound +-{spec['outcome_bounds']})")
+        if bad:
+            ctx.violation({"api": api, "case": "value-outside-the-callers-bounds"}, "reconcile moved a quantity further than the bound given for it: " + "; ".join(bad[:3]), replay)
     return key, accepted
 
 
@@ -1479,6 +1506,43 @@ def run_problems(ctx, verdicts):
 
 
 # ==================================================================================================================
+def probe_empty_adjustables(ctx):
+    """calibrate with nothing to adjust: whatever the library does (it may refuse), the caller's parameter set is left alone -- it is not returned as the result,
+    not renamed, not stored a second time in the project"""
+    import atomica as at
+
+    for name in (["udt"] if ctx.quick else ["udt", "tb_simple"]):
+        try:
+            P = M.build_project({"kind": "lib", "name": name})
+        except Exception as e:
+            ctx.notes.append(f"empty-adjustables probe: {name} not built: {e!r}"[:160])
+            continue
+        ps = P.parsets[0]
+        name0, n0, before = ps.name, len(P.parsets), canon(ps)
+        outs = cal_quantities(P, ps)[0][:1]
+        for via in ("project", "function"):
+            try:
+                meas = [(v, p_, 1.0, "fractional") for (v, p_) in outs]
+                out = P.calibrate(parset=ps, adjustables=[], measurables=meas, max_time=1, save_to_project=True) if via == "project" else at.calibrate(P, ps, [], meas, max_time=1)
+                status = "returned"
+            except Exception as e:
+                out, status = None, type(e).__name__
+            ctx.count("probe.empty_adjustables." + ("returned" if status == "returned" else "raised"))
+            ctx.case({"probe": "empty-adjustables", "demo": name, "via": via}, nontrivial=True)
+            problems = []
+            if out is ps:
+                problems.append("the caller's ParameterSet object itself is returned as the calibrated one")
+            if ps.name != name0:
+                problems.append(f"the caller's ParameterSet was renamed {name0!r} -> {ps.name!r}")
+            if canon(ps) != before:
+                problems.append("the caller's ParameterSet changed")
+            if sum(1 for x in P.parsets.values() if x is ps) > 1:
+                problems.append("the same ParameterSet object is stored twice in the project")
+            if problems:
+                ctx.violation({"api": "calibrate", "case": "empty-adjustables-touches-caller-object", "via": via}, f"{name}: calibrate with an empty list of adjustables ({status}): " + "; ".join(problems), {"part": "empty_adjustables", "demo": name, "via": via})
+                break
+
+
 def run(ctx):
     logging.getLogger("atomica").setLevel(logging.CRITICAL)
     np.seterr(all="ignore")
@@ -1487,6 +1551,7 @@ def run(ctx):
     run_objective(ctx)
     t1 = time.time()
     run_calobj(ctx)
+    probe_empty_adjustables(ctx)
     t2 = time.time()
     run_problems(ctx, verdicts)
     summary = {}
